@@ -255,10 +255,10 @@ def family(thorough: bool):
     add("L1.carr", carrs(A, (2,) if not thorough else (2, 3)))
     add("L1.sarr", sarrs(A))
     add("L1.rec2", recs(A, (2,)))
-    add("L1.rec3", recs(ATOMS_MID if not thorough else ATOMS_FULL, (3,)))
+    add("L1.rec3", recs(ATOMS_SMALL + (S2, ENUM_U2) if not thorough else ATOMS_FULL, (3,)))
     if not thorough:
-        add("L1.inherit", recs(ATOMS_MID, (2,), splits_for=only_inherited))
-        add("L1.inherit", recs(ATOMS_SMALL, (3,), splits_for=only_inherited))
+        add("L1.inherit", recs(ATOMS_SMALL + (S2, ENUM_U2), (2,), splits_for=only_inherited))
+        add("L1.inherit", recs(tiny, (3,), splits_for=only_inherited))
     else:
         add("L1.inherit", recs(ATOMS_FULL, (2,), splits_for=only_inherited))
         add("L1.inherit", recs(ATOMS_MID, (3,), splits_for=only_inherited))
@@ -274,7 +274,7 @@ def family(thorough: bool):
             recs(ATOMS_SMALL, (2,)), (t for t in recs(tiny, (3,)) if width(t) <= 5),
             (("rec", (BIT, BV(2)), (1, 1)), ("rec", (BV(2), BOOL, BIT), (1, 2)), ("rec", (BV(3), BIT), (2, 0))),
             trecs((2,), TREC_SHAPES[:2]), bf_repr)))
-        partner = ATOMS_MID
+        partner = ATOMS_SMALL + (S2, ENUM_U2)
     else:
         inner_atoms = ATOMS_MID
         L1m = list(_dedupe(itertools.chain(
@@ -297,7 +297,7 @@ def family(thorough: bool):
     add("L2.rec2", (("rec", fs, (2,)) for a in L1m for p in partner for fs in ((a, p), (p, a))))
     add("L2.rec2", recs(tuple(L1rep), (2,)))
     small1 = [t for t in L1rep if width(t) <= 4 and t[0] != "trec"]
-    t3 = tiny
+    t3 = tiny if thorough else ATOMS_TINY
     add("L2.rec3", (("rec", fs, (3,)) for a in small1 for p in t3 for q in t3 for fs in ((a, p, q), (p, a, q), (p, q, a))))
     inh1 = [t for t in L1rep if t[0] in ("sarr", "rec", "carr") and width(t) <= 4]
     if thorough:
@@ -328,7 +328,7 @@ def family(thorough: bool):
 
     # ---- Serialized[T] ---------------------------------------------------------------------
     l2 = [t for s, t in out if s.startswith("L2.")]
-    ser_base = list(A) + L1m + l2[:: (4 if thorough else 7)]
+    ser_base = list(A) + L1m + l2[:: (4 if thorough else 9)]
     add("ser", (("ser", t) for t in _dedupe(ser_base)))
 
     seen, res = set(), []
